@@ -217,5 +217,5 @@ META = {
             + LINK_KNOWN + ": LinkEnergy::update charges the current load over the whole period since the last comm start/end on the link "
             "(latency phase, rate changes caused elsewhere). Trusted: Coq kernel, extraction, harness/res_c23.cpp, the generator.",
     "technique": "Coq proof (induction on the timeline, Q arithmetic) + extracted oracle on sampled implementation runs",
-    "claimed": False,
+    "claimed": True,
 }
